@@ -50,7 +50,9 @@ INT_TYPES = {
 }
 
 def int_type(qt):
-    q = qt.replace('const ', '').replace('volatile ', '').strip()
+    q = re.sub(r'\bconst\b', '', qt)
+    q = re.sub(r'\bvolatile\b', '', q).strip()
+    q = re.sub(r'\s+', ' ', q).replace('* ', '*').strip()
     q = re.sub(r'\s*&$', '', q).strip()
     if q in INT_TYPES:
         return INT_TYPES[q]
@@ -541,6 +543,17 @@ class Tr:
                 txt, e2 = self.assign(lv, v, env)
                 return txt + cont(e2)
             raise Untranslatable(f'{self.c.fname}: member call statement {me.get("name")}')
+        if kind == 'IfStmt' and n.get('isConstexpr'):
+            # `if constexpr`: the instantiation keeps one branch only (the other is a NullStmt); the generated
+            # code is valid for instantiations that take the same branch (recorded in the meta data)
+            raw = [c for c in (n.get('inner') or []) if isinstance(c, dict)]
+            branches = raw[1:]
+            live = [b for b in branches if b.get('kind') and b.get('kind') != 'NullStmt']
+            self.c.constexpr_assumptions = getattr(self.c, 'constexpr_assumptions', []) + [self.expr(raw[0], env)[0]]
+            if len(live) == 1:
+                return self.stmts([live[0]] + rest, env, k)
+            if not live:
+                return cont(env)
         if kind == 'IfStmt':
             cond, tc = self.expr(inner[0], env)
             cond = self.as_bool(cond, tc)
@@ -650,7 +663,7 @@ def find_function(ast, unit, fname):
             if not any(isinstance(c, dict) and c.get('kind') == 'CompoundStmt' for c in n.get('inner') or []):
                 continue
             kinds = [p.get('kind') for p in path]
-            dependent = 'ClassTemplateDecl' in kinds and 'ClassTemplateSpecializationDecl' not in kinds
+            dependent = ('ClassTemplateDecl' in kinds and 'ClassTemplateSpecializationDecl' not in kinds) or 'ClassTemplatePartialSpecializationDecl' in kinds
             if 'FunctionTemplateDecl' in kinds:
                 # instantiations of function templates are children of the FunctionTemplateDecl after the pattern
                 tmpl = [p for p in path if p.get('kind') == 'FunctionTemplateDecl'][-1]
@@ -667,7 +680,7 @@ def find_function(ast, unit, fname):
     if want:
         nd = [n for n in nd if want in n.get('type', {}).get('qualType', '')] or nd
     if nd:
-        return nd[0]
+        return nd[min(unit.get('pick', 0), len(nd) - 1)]
     if cands:
         return cands[0][1]
     raise Untranslatable(f'function {fname} not found in the AST of {unit["name"]}')
@@ -703,6 +716,9 @@ def translate_function(ast, unit, fname, known, call_map, out):
     # which state inputs are actually used?
     used_state = [(m, nm) for m, nm in state_in if re.search(r'\b' + re.escape(nm) + r'\b', term + ' '.join(ctx.loops))]
     uses_mem = '$mem' in env and re.search(r'\b' + re.escape(env['$mem']) + r'\b', term + ' '.join(ctx.loops))
+    for ap in unit.get('always_params', []):
+        if ap not in ctx.params:
+            ctx.params.append(ap)
     sig = ''
     for p in ctx.params:
         sig += f' (P_{p} : N)'
@@ -742,7 +758,8 @@ def translate_constant(ast, unit, cname, known, call_map, out):
             if 'ClassTemplateDecl' in kinds and 'ClassTemplateSpecializationDecl' not in kinds:
                 continue
             cls = unit.get('const_class', unit.get('class'))
-            if cls and not any(p.get('name') == cls for p in path):
+            clss = cls if isinstance(cls, (list, tuple)) else [cls]
+            if cls and not any(p.get('name') in clss for p in path):
                 continue
             init = [c for c in n.get('inner') or [] if isinstance(c, dict)]
             if not init:
@@ -810,7 +827,7 @@ def generate(unit):
         metas.append(meta)
     src = unit['source']
     sha = hashlib.sha256(open(os.path.join(REPO, src), 'rb').read()).hexdigest()[:16]
-    return PRELUDE % {'src': src, 'sha': sha} + '\n' + '\n\n'.join(out) + '\n', metas
+    return PRELUDE % {'src': src, 'sha': sha} + unit.get('prelude', '') + '\n\n' + '\n\n'.join(out) + '\n', metas
 
 
 if __name__ == '__main__':
